@@ -1681,6 +1681,18 @@ class Engine:
     elif k == 'list' and name == 'pop' and not args:
       self.emit(st, 'safe-pop', sv.l_len(tgt) > 0, c, 'pop from non-empty list')
       new = sv.mk_list(tgt.t, sv.l_arr(tgt), sv.l_len(tgt) - 1)
+    elif k == 'dict' and name == 'update' and (
+        (len(args) == 1 and not c.keywords) or (not args and len(c.keywords) == 1 and c.keywords[0].arg is None)):
+      # d.update(other) / d.update(**other): entries of `other` override, everything else stays
+      other = args[0] if args else self.ev(c.keywords[0].value, st)
+      if other.meta == 'empty':
+        new = tgt
+      else:
+        other = coerce(other, tgt.t) if other.t != tgt.t else other
+        kk = z3.Const(sv.fresh_name('uk'), sv.zsort(tgt.t.args[0]))
+        ok = z3.Select(sv.d_keys(other), kk)
+        new = sv.mk_dict(tgt.t, z3.Lambda([kk], z3.Or(z3.Select(sv.d_keys(tgt), kk), ok)),
+                         z3.Lambda([kk], z3.If(ok, z3.Select(sv.d_vals(other), kk), z3.Select(sv.d_vals(tgt), kk))))
     elif k == 'set' and name == 'add':
       new = V(tgt.t, z3.Store(tgt.z, coerce(args[0], tgt.t.args[0]).z, True))
     elif k == 'set' and name in ('remove', 'discard') and len(args) == 1:
